@@ -1,5 +1,6 @@
 """ITS-world traces (harness 'its' mode) -> Coq case files."""
 from tmcases import H, OH, ledger, is_event
+import tmcases
 import gwcases
 
 def cv(p):
@@ -20,6 +21,8 @@ def iop(op, i):
     k = op['op']
     if k == 'gwApprove':
         return '(IGateway %s)' % gwcases.gop({'op': 'approve', 'caller': op['caller'], 'now': op['now'], 'messages': op['messages'], 'proof': op['proof']}, i['owner'])
+    if k == 'tm':
+        return '(ITm %s %s)' % (H(op['tma']), tmcases.top(op['top'], op['tma']))
     if k == 'deliver':
         return '(IDeliver %s %d %s)' % (H(i['its']), op['id'], 'true' if op['ok'] else 'false')
     if k == 'issue':
